@@ -21,7 +21,7 @@ RULE = ('cases = (table, key, count field, conflicts arguments, presorted, buffe
         'that occurs once and a key that occurs more than once. Distinct = SHA-1 of the case.')
 ASSUMPTIONS = ['rectangular tables with hashable cells (property domain)', 'key equality is Python == on key tuples']
 REQUIRED = ['rows=0', 'rows=1', 'run>=3-at-start', 'run>=3-in-middle', 'run>=3-at-end', 'key-none', 'key-compound', 'key-index',
-            'count-column', 'conflict-group', 'agreeing-duplicate-group', 'none-key-duplicated', 'presorted', 'row-containers:mixed', 'row-containers:tuples', 'buffersize-chunked', 'later-pass-after-edit(cache=False)']
+            'count-column', 'conflict-group', 'agreeing-duplicate-group', 'none-key-duplicated', 'presorted', 'input-is-a-petl-view', 'row-containers:mixed', 'row-containers:tuples', 'buffersize-chunked', 'later-pass-after-edit(cache=False)']
 CELLS = [None, 1, 1.0, True, 2, 'a', b'a', 'b', (1, 2), gen.D(2020, 1, 1), 0, '']
 
 
@@ -86,15 +86,32 @@ def cases(ctx):
         if rng.random() < 0.25:
             kw['presorted'] = True
         kw['rowtypes'] = rng.choice(['lists', 'lists', 'tuples', 'mixed', 'mixed'])
+        if not kw.get('presorted') and key is not None and rng.random() < 0.15:
+            # the input is itself a petl sort view: on a prefix of the key, on the key, descending, on another field; or a pass-through
+            kw['wrap'] = rng.choice(['sort-first-key-field', 'sort-first-key-field', 'sort-same-key', 'sort-same-key-reverse', 'sort-last-field', 'cat'])
         if rng.random() < 0.25:
             kw['buffersize'] = rng.randint(1, 3)
         yield _mk([hdr] + rows, key, **kw)
+
+
+def _wrapfn(case, hdr):
+    key = case['key']
+    k1 = key[0] if isinstance(key, (list, tuple)) else key
+    wk = tuple(key) if isinstance(key, list) else key
+    return {'sort-first-key-field': lambda t: petl.sort(t, k1), 'sort-same-key': lambda t: petl.sort(t, wk),
+            'sort-same-key-reverse': lambda t: petl.sort(t, wk, reverse=True), 'sort-last-field': lambda t: petl.sort(t, len(hdr) - 1),
+            'cat': lambda t: petl.cat(t)}[case['wrap']]
 
 
 def judge(case, ctx):
     table, key = case['table'], case['key']
     hdr = table[0]
     rows = [tuple(r) for r in table[1:]]
+    wrapped = bool(case.get('wrap')) and not case['presorted']
+    if wrapped:
+        # "input order" is the order in which the view that serves as input delivers its rows
+        rows = [tuple(r) for r in util.rows_of(_wrapfn(case, hdr)(copy.deepcopy(table)))[1:]]
+        table = [hdr] + [list(r) for r in rows]
     n = len(rows)
     kidx = gen.resolve_key(hdr, key) if key is not None else list(range(len(hdr)))
 
@@ -137,6 +154,9 @@ def judge(case, ctx):
         # rows as tuples, or lists and tuples mixed (equal cells are equal rows whatever the container)
         src = [tuple(src[0]) if rt == 'tuples' else src[0]] + [tuple(r) if (rt == 'tuples' or i % 2) else r for i, r in enumerate(src[1:])]
         ctx.seen('row-containers:' + rt)
+    if wrapped:
+        ctx.seen('input-is-a-petl-view')
+        src = _wrapfn(case, hdr)(src)
     if case['buffersize'] is not None:
         kw['buffersize'] = case['buffersize']
         if n > case['buffersize']:
@@ -244,6 +264,10 @@ def judge(case, ctx):
             groups.setdefault(k, []).append(r)
         conflicting = set()      # groups with at least one disagreeing pair
         all_pairs = set()        # groups of >= 2 rows where every pair disagrees
+        neighbour_groups = set()     # groups in which two rows that follow each other (the sort is stable: input order) disagree
+        for k, g in groups.items():
+            if any(disagree(g[i], g[i + 1]) for i in range(len(g) - 1)):
+                neighbour_groups.add(k)
         for k, g in groups.items():
             if len(g) > 1:
                 pairs = [(g[i], g[j]) for i in range(len(g)) for j in range(i + 1, len(g))]
@@ -267,4 +291,15 @@ def judge(case, ctx):
             if any(got_ms.get(k, 0) < v for k, v in must.items()):
                 out.append({'kind': 'conflicts-missed-a-group-whose-rows-all-disagree', 'observed': con[1:],
                             'expected-at-least': [r for r, k in zip(rows, keys) if k in all_pairs]})
+            # a group in which two rows that follow each other disagree on a non-missing value shows up with at least two of its
+            # rows, whichever way the comparison within a group is organised (neighbours only, or all pairs).  (Which further rows
+            # of such a group are returned is not claimed: petl itself omits a row that agreed with its predecessor and disagrees
+            # with its successor when an earlier pair of the group had already conflicted - see DESIGN 6.3.)
+            for k in neighbour_groups:
+                grp_ms = strict_ms(r for r, kk in zip(rows, keys) if kk == k)
+                if sum(min(got_ms.get(x, 0), v) for x, v in grp_ms.items()) < 2 and not out:
+                    out.append({'kind': 'conflicts-missed-a-group-with-disagreeing-neighbours', 'key': k, 'observed': con[1:],
+                                'group': [r for r, kk in zip(rows, keys) if kk == k]})
+            if neighbour_groups:
+                ctx.seen('conflicts:neighbouring-disagreement')
     return out
